@@ -35,73 +35,156 @@ from prompt_toolkit.output.base import Output
 from prompt_toolkit.output.vt100 import Vt100_Output
 from prompt_toolkit.renderer import (Renderer, _output_screen_diff, _StyleStringHasStyleCache,
                                      _StyleStringToAttrsCache)
-from prompt_toolkit.styles import Attrs, DummyStyleTransformation
+from prompt_toolkit.styles import Attrs, DummyStyleTransformation, StyleTransformation
 from prompt_toolkit.utils import get_cwidth
 
 ID = "C06"
 DRIVER = "drv_c06"
 PROPS = ["Ptk.Props.C06", "Ptk.Props.C06Scroll", "Ptk.Props.C06Wide", "Ptk.Props.C06WideCells",
-         "Ptk.Props.C06Diff", "Ptk.Props.C06Lemmas"]
-LEVEL_TEXT = ("Lean 4 theorems over an executable model of the screen differ (_output_screen_diff with "
-              "move_cursor / output_char / get_max_column_index, Renderer render/erase/reset/clear state) and of "
-              "a VT100 terminal. For width-1 cells: executing the differ's output on a terminal that shows the "
-              "previous screen yields the new screen, cursor on the screen's cursor, SGR reset, cursor visibility "
-              "and autowrap as required (diff_correct, diff_done, diff_done_scroll); this invariant is carried "
-              "over every finite sequence of render/done/erase/clear (render_seq) and the result is visibly "
-              "identical to a from-scratch draw (incremental_eq_scratch). The same for screens with wide "
-              "(two-column) characters under the xterm rule that overwriting one half of a wide character blanks "
-              "the other half (diff_correct_wide, render_seq_wide, incremental_eq_scratch_wide). For arbitrary "
-              "printable cells (also multi-character cells like ^A and combining characters): writes stay inside "
-              "the owned rows/columns, nothing scrolls, no cursor motion passes the margins, over single calls and "
-              "over sequences (diff_confined_wide, no_scroll_wide, render_seq_geo). The model is tied to /repo on every run by a call-by-call "
-              "correspondence, a cross-check of the Lean terminal model against a byte-level VT100 interpreter, "
-              "and the property oracle on real Renderer + Vt100_Output output (also for real PromptSession layouts)")
-LEVEL_NOTE = ("partial: the terminal is a model (trusted); cell CONTENTS of multi-character cells (^A, <80>) and of "
-              "cells with combining characters are covered by the correspondence and the oracle only; trusted: Lean "
-              "kernel, propext/Classical.choice/Quot.sound")
-TECHNIQUE = ("Lean 4 proof over an executable model of the screen differ and a VT100 terminal model + call-by-call "
-             "differential correspondence + byte-level VT100 interpreter oracle on the real Renderer / Vt100_Output")
+         "Ptk.Props.C06Diff", "Ptk.Props.C06Lemmas", "Ptk.Props.C06Cache", "Ptk.Props.C06Full", "Ptk.Props.C06Vt", "Ptk.Props.C06Bytes", "Ptk.Props.C06Resize", "Ptk.Props.C06Block",
+         "Ptk.Props.C06BlockFull"]
+LEVEL_TEXT = ("Lean 4 theorems over executable models of (1) the screen differ (_output_screen_diff with move_cursor / "
+              "output_char / get_max_column_index), (2) the whole Renderer state machine: every attribute it keeps "
+              "between calls including the two style dictionaries _attrs_for_style / _style_string_has_style with the "
+              "invalidation block of Renderer.render as written, style-sheet / style-transformation / colour-depth "
+              "changes, resizes, erase / clear / reset, cursor-position-report traffic, the height asked of the layout, "
+              "(3) Vt100_Output as an encoder from Output calls to bytes (_EscapeCodeCache, _colors_to_code, colour "
+              "quantisation, cursor_* with amount 0/1/n, erase_*, hide/show cursor, autowrap, mode switches) and (4) a "
+              "VT100 terminal, both as abstract operations and as a byte-level interpreter. Proved: for width-1 cells "
+              "executing the differ's output on a terminal that shows the previous screen yields the new screen, cursor, "
+              "SGR reset, visibility, autowrap (diff_correct, diff_done, diff_done_scroll); over EVERY session the "
+              "dictionaries agree with the style in force (cache_consistent, has_style_entries_current), hence the full "
+              "renderer makes exactly the calls of the pure differ model (render_refines, runFT_sim) and the invariant "
+              "'terminal shows _last_screen' is carried over every sequence of render / done / erase / clear with style, "
+              "transformation and depth changing at will, the result being visibly identical to a from-scratch draw by a "
+              "brand-new Renderer (render_seq_full, incremental_eq_scratch_full; has_cache_reset_needed shows why both "
+              "dictionaries must be dropped); the same for wide (two-column) characters under the xterm overwrite rule "
+              "(render_seq_wide_full, incremental_eq_scratch_wide_full) and for screens of multi-character cells made of narrow "
+              "characters (control characters displayed as ^A / <80>) and cells with combining characters, every narrow "
+              "character on its own column (diff_correct_block, render_seq_block_full, incremental_eq_scratch_block_full); "
+              "for arbitrary printable cells writes stay inside "
+              "the owned rows, nothing scrolls, no motion passes the margins, also across a resize "
+              "(render_seq_geo_full, render_seq_geo_resize, render_after_resize, erase_after_resize); a truthful cursor "
+              "position report makes the drawn rows fit (fit_of_cpr); reading the bytes Vt100_Output writes equals the "
+              "abstract terminal operation for every call and every inline session (interp_emit, interp_emitAll, "
+              "diff_bytes, runFB_sim), so incremental = from scratch holds for the terminal that read the bytes "
+              "(session_bytes_eq_scratch). The models are tied to /repo on every run by regenerated tables and escape "
+              "sequences with pins, a call-by-call and state-by-state correspondence (dictionary contents, hashes, sizes, "
+              "CPR state, heights), a byte-for-byte comparison of the Lean encoder with the real Vt100_Output, a "
+              "cross-check of both Lean terminals with an independent Python VT100 interpreter, and the property oracle on "
+              "real Renderer + Vt100_Output output (also for real PromptSession layouts with style swaps)")
+LEVEL_NOTE = ("partial: the terminal semantics is a model (trusted; the byte grammar CSI/OSC/C0 and the cell semantics of "
+              "an xterm with autowrap off), cross-checked against an independent interpreter; cell CONTENTS are proved for "
+              "screens of width-1 cells, for screens with wide characters, and for screens of multi-character / combining "
+              "cells of narrow characters separately: a screen that MIXES wide characters with multi-character cells (or a "
+              "multi-character cell containing a wide character) has only the geometry theorems, its contents are covered by "
+              "the correspondence and the oracle; the byte-level session theorem is for inline mode (entering the "
+              "alternate screen also homes the cursor, which the abstract model does not represent); trusted: Lean kernel, "
+              "propext/Classical.choice/Quot.sound")
+TECHNIQUE = ("Lean 4 proof over executable models of the screen differ, the Renderer state machine with its style caches, "
+             "the Vt100_Output encoder and a VT100 terminal (abstract + byte-level) + refinement between the models + "
+             "regenerated tables with pins + call/state/byte differential correspondence + independent VT100 interpreter "
+             "oracle on the real Renderer / Vt100_Output")
 RULE = ("exhaustive: every pair (thorough: triple) of screens over 3 cell kinds {default blank, 'a', styled "
         "blank} on tiny terminals, inline and full-screen, rendered as a chain, every third one ending with a done "
-        "render; then seeded random chains of <= 8 screens (W<=12, H<=6, origin below the top, wide and multi-char "
-        "cells, zero-width escapes, equal-attrs style ids, grow/shrink, small edits of the previous screen, "
-        "erase/clear, style-key changes, depths 1/4/8/24 with the depth CHANGING between renders), direct differ calls with arbitrary cursor / last style / "
-        "previous width (call correspondence only), Renderer sequences with resizes and bare resets (call "
-        "correspondence only), and screens produced by real PromptSession layouts (completion menus, toolbars, "
-        "multiline, wide prompts) during random editing sessions; a case is non-trivial when at least two renders "
-        "draw different non-empty screens")
+        "render; every ordered pair of rows of 3 columns over {gap, 'a', a control character displayed ^A on two columns, "
+        "'e' + combining accent}; every pair of screens over {gap, 'a', blank of style 2, blank of style 3} on 2x1 (thorough: also 1x2, "
+        "both modes) rendered on ONE Renderer with a style-sheet and/or style-transformation and/or depth change "
+        "between the renders, 9 transitions in which the same style string means 'nothing visible on an empty cell' "
+        "before and 'background / underline' after or the other way round (trailing blanks, blank rows); then seeded "
+        "random chains of <= 8 screens (W<=12, H<=6, origin below the top, wide and multi-char cells, zero-width "
+        "escapes, equal-attrs style ids, grow/shrink, small edits of the previous screen, erase/clear, 4 style sheets "
+        "x 4 style transformations switched between renders, depths 1/4/8/24 changing between renders, cursor "
+        "position reports), direct differ calls with arbitrary cursor / last style / previous width (call, dictionary "
+        "and byte correspondence only), Renderer sequences with resizes, bare resets, CPR request / report / timeout, "
+        "height_is_known / rows_above_layout queries and layouts whose preferred height differs from what they draw "
+        "(call, state, height and byte correspondence only), and screens produced by real PromptSession layouts "
+        "(completion menus, toolbars, multiline, wide prompts, origin below the top with a truthful cursor position "
+        "report, real Style / SwapLightAndDark switches) during random editing sessions; a case is non-trivial when "
+        "at least two renders draw different non-empty screens")
 EXHAUSTIVE = True
 EXHAUSTIVE_SCOPE = {"quick": "(W,H) in {(1,1),(2,1),(3,1),(1,2)}: 3 cell kinds, all ordered pairs of screens, inline + "
-                             "full-screen; (2,2): all ordered pairs, inline",
-                    "thorough": "all ordered pairs for (1,1),(2,1),(3,1),(1,2),(2,2) in both modes, all ordered triples for (1,1),(2,1),(3,1),(1,2), 12000 sampled pairs for (3,2)"}
-TRUSTED = ["harness/c06.py: recording Output, VT100 interpreter (CR LF BS CUU/CUD/CUF/CUB CUP ED EL SGR DECTCEM "
-           "DECAWM alt-screen, xterm wide-char overwrite rule), comparison code",
-           "Ptk/Model/C06.lean: hand translation of renderer.py _output_screen_diff / Renderer state "
-           "(correspondence-checked call by call) and the terminal model Term/exec (cross-checked against the "
-           "byte-level interpreter on every comparable case)"]
+                             "full-screen; (2,2): all ordered pairs, inline; style swaps: (2,1) all ordered pairs of "
+                             "screens over 4 cell kinds x 9 style/transformation/depth transitions, inline; block cells: every "
+                             "ordered pair of the 33 rows of 3 columns over {gap, 'a', ^A (2 columns), e+combining accent}, inline",
+                    "thorough": "all ordered pairs for (1,1),(2,1),(3,1),(1,2),(2,2) in both modes, all ordered triples "
+                                "for (1,1),(2,1),(3,1),(1,2), 12000 sampled pairs for (3,2); style swaps: (2,1),(1,2) "
+                                "all ordered pairs x 9 transitions in both modes, 1500 sampled pairs each for (3,1),(2,2); block "
+                                "cells: all ordered pairs of the 33 rows of 3 columns in both modes and of the 109 rows of 4 columns"}
+TRUSTED = ["harness/c06.py: recording Output, the Python VT100 interpreter (CR LF BS CUU/CUD/CUF/CUB CUP ED EL SGR "
+           "DECTCEM DECAWM alt-screen OSC, xterm wide-char overwrite rule), comparison code",
+           "harness/gen_c06.py: prints the colour tables and the escape sequences of the current Vt100_Output faithfully",
+           "Ptk/Model/C06.lean, C06Full.lean, C06Vt.lean: hand translations of renderer.py (_output_screen_diff, "
+           "Renderer, the two style caches) and output/vt100.py (encoders), correspondence-checked call by call, state "
+           "by state and byte by byte; the terminal models Term/exec and interp, cross-checked against the Python "
+           "interpreter on every chain case"]
 ASSUMPTIONS = ["VT100/xterm semantics as modelled (autowrap off: cursor stays on the last column; ED/EL erase "
-               "with the current background; SGR sequences are absolute; CUU/CUF/CUB clamp)",
+               "with the current background; SGR parameters as xterm; CUU/CUF/CUB clamp; an amount of 0 means 1)",
                "screens satisfy WFScreen: no written row >= Screen.height (checked on every real-layout screen; "
                "theorem wf_needed shows it is necessary)",
-               "the default char's style has no colour/underline (attrs_for_style['[transparent]'] is plain)",
-               "zero-width escapes do not move the cursor or change cells",
+               "the default char's style '[transparent]' shows nothing on an empty cell under every style sheet and "
+               "transformation (a style sheet that underlines or colours the default style makes such cells invisible "
+               "to the differ, from scratch as well as incrementally)",
+               "the invalidation hashes identify what the style and the style transformation compute "
+               "(rawAt sk tk): two different style sheets with equal hashes are outside the model",
+               "zero-width escapes do not move the cursor or change cells (byte-level theorems: no zero-width escapes)",
+               "cell texts contain no ESC (Char displays control characters as ^[ ...; Vt100_Output.write would "
+               "replace it by '?')",
+               "colour strings are ANSI colour names or hex digit strings (what parse_color produces)",
                "runtime wcwidth is data (Char.width); a space is one column wide",
-               "the drawn rows fit between the origin and the bottom of the terminal (otherwise the renderer "
-               "scrolls on purpose to reserve space)"]
-PARTIAL_SCOPE = ["cell contents: theorems cover single-character cells of width 1 and 2 (wide characters followed by "
-                 "their empty continuation cell); for multi-character cells (^A, <80>) and combining characters "
-                 "only geometry (confinement, no scroll, cursor, modes) is proved, contents are checked by "
+               "the drawn rows fit between the origin and the bottom of the terminal (proved from a truthful cursor "
+               "position report and a layout that respects the height it is given: fit_of_cpr; otherwise the renderer "
+               "scrolls on purpose to reserve space)",
+               "after a resize the terminal's cursor is where the renderer believes (contents arbitrary)"]
+PARTIAL_SCOPE = ["cell contents: three content theorems for three classes of screens: (a) width-1 single-character cells, "
+                 "(b) single-character cells of width 1 and 2 (wide characters followed by their empty continuation cell, "
+                 "xterm overwrite rule), (c) block cells: k >= 1 narrow characters plus any zero-width (combining) "
+                 "characters, width k, followed by k-1 empty cells (^A, <80>, e + accent); zero-width characters are not "
+                 "represented in the terminal grid; a screen mixing wide characters with multi-character cells has only "
+                 "the geometry theorems (confinement, no scroll, cursor, modes), its contents are checked by "
                  "correspondence and oracle",
-                 "alternate-screen switching, mouse/bracketed-paste modes, cursor shape, CPR are modelled as "
-                 "calls without terminal semantics",
-                 "terminal resize between renders: only the call sequence is compared (no terminal semantics)",
-                 "the escape encoders of Vt100_Output are not modelled in Lean: they are exercised by the "
-                 "byte-level interpreter (grid cross-check + oracle)"]
+                 "alternate-screen switching, mouse/bracketed-paste modes and cursor shape are encoded byte-exactly "
+                 "and parsed by the interpreter but have no terminal semantics; the byte-level SESSION theorem is for "
+                 "inline mode only (single differ calls: both modes)",
+                 "terminal resize: what the terminal shows after a resize is an assumption (cursor where the renderer "
+                 "believes); reflow is not modelled",
+                 "wait_for_cpr_responses (asyncio futures / timeouts) is not modelled; the CPR timeout task is an "
+                 "explicit operation",
+                 "a bare reset() without erase (the renderer forgets the cursor position) has state / call / byte "
+                 "correspondence but no terminal theorem"]
+
+ANCHORS = ["src/prompt_toolkit/renderer.py", "src/prompt_toolkit/output/vt100.py", "src/prompt_toolkit/layout/screen.py",
+           "src/prompt_toolkit/output/base.py"]
+# the functions whose bodies the Lean models follow line by line and the correspondence exercises
+MODELLED = {
+    "src/prompt_toolkit/renderer.py": [
+        "_output_screen_diff", "_output_screen_diff.reset_attributes", "_output_screen_diff.move_cursor",
+        "_output_screen_diff.output_char", "_output_screen_diff.get_max_column_index",
+        "_StyleStringToAttrsCache.__init__", "_StyleStringToAttrsCache.__missing__",
+        "_StyleStringHasStyleCache.__init__", "_StyleStringHasStyleCache.__missing__",
+        "Renderer.__init__", "Renderer.reset", "Renderer.render", "Renderer.erase", "Renderer.clear",
+        "Renderer.height_is_known", "Renderer.rows_above_layout", "Renderer.request_absolute_cursor_position",
+        "Renderer.request_absolute_cursor_position.do_cpr", "Renderer.request_absolute_cursor_position.timer",
+        "Renderer.report_absolute_cursor_row", "Renderer.waiting_for_cpr"],
+    "src/prompt_toolkit/output/vt100.py": [
+        "_get_closest_ansi_color", "_16ColorCache.get_code", "_16ColorCache._get", "_256ColorCache.__missing__",
+        "_EscapeCodeCache.__missing__", "_EscapeCodeCache._color_name_to_rgb", "_EscapeCodeCache._colors_to_code",
+        "_EscapeCodeCache._colors_to_code.get",
+        "Vt100_Output.write", "Vt100_Output.write_raw", "Vt100_Output.erase_screen",
+        "Vt100_Output.enter_alternate_screen", "Vt100_Output.quit_alternate_screen",
+        "Vt100_Output.enable_mouse_support", "Vt100_Output.disable_mouse_support", "Vt100_Output.erase_end_of_line",
+        "Vt100_Output.erase_down", "Vt100_Output.reset_attributes", "Vt100_Output.set_attributes",
+        "Vt100_Output.disable_autowrap", "Vt100_Output.enable_autowrap", "Vt100_Output.enable_bracketed_paste",
+        "Vt100_Output.disable_bracketed_paste", "Vt100_Output.reset_cursor_key_mode", "Vt100_Output.cursor_goto",
+        "Vt100_Output.cursor_up", "Vt100_Output.cursor_forward", "Vt100_Output.cursor_backward",
+        "Vt100_Output.hide_cursor", "Vt100_Output.show_cursor", "Vt100_Output.set_cursor_shape",
+        "Vt100_Output.reset_cursor_shape", "Vt100_Output.ask_for_cpr"],
+}
 
 DEPTHS = {1: ColorDepth.DEPTH_1_BIT, 4: ColorDepth.DEPTH_4_BIT, 8: ColorDepth.DEPTH_8_BIT,
           24: ColorDepth.DEPTH_24_BIT}
 DEPTH_NUM = {v: k for k, v in DEPTHS.items()}
-SHAPES = [CursorShape._NEVER_CHANGE, CursorShape.BLOCK, CursorShape.BEAM, CursorShape.UNDERLINE]
+SHAPES = list(CursorShape)      # index = the model's shape number (0 = _NEVER_CHANGE)
 PLAIN = ["", "", "0000000"]
 
 
@@ -117,12 +200,60 @@ def mk_attrs(spec) -> Attrs:
                  blink=b[4], reverse=b[5], hidden=b[6])
 
 
-def style_table(case):
-    """sid -> Attrs for every style id of the case (0 and 1 always plain unless overridden)"""
+def sheet_table(case, sk):
+    """sid -> Attrs under style sheet `sk` (sheet 0 = case["styles"]; other sheets = case["sheets"][str(sk)],
+    a sheet that is not listed equals sheet 0: only its invalidation hash differs)"""
+    rows = case.get("styles", [])
+    sheets = case.get("sheets") or {}
+    if sk and str(sk) in sheets:
+        rows = sheets[str(sk)]
     t = {0: mk_attrs(PLAIN), 1: mk_attrs(PLAIN)}
-    for sid, fg, bg, fl in case.get("styles", []):
+    for sid, fg, bg, fl in rows:
         t[sid] = mk_attrs((fg, bg, fl))
     return t
+
+
+def tr_apply(tk, a: Attrs) -> Attrs:
+    """the style transformations of the harness (all keep plain attributes plain: the default char's style must
+    stay invisible): 1 = bold text is underlined, 2 = backgrounds are dropped, 3 = fg/bg swapped"""
+    if tk == 1:
+        return a._replace(underline=bool(a.underline or a.bold))
+    if tk == 2:
+        return a._replace(bgcolor="")
+    if tk == 3:
+        return a._replace(color=a.bgcolor, bgcolor=a.color)
+    return a
+
+
+def all_sids(case):
+    sids = {0, 1}
+    for rows in [case.get("styles", [])] + list((case.get("sheets") or {}).values()):
+        sids.update(r[0] for r in rows)
+    return sorted(sids)
+
+
+def style_table(case, sk=0, tk=0):
+    """sid -> Attrs under (style sheet sk, transformation tk)"""
+    base = sheet_table(case, sk)
+    return {sid: tr_apply(tk, base.get(sid, mk_attrs(PLAIN))) for sid in all_sids(case)}
+
+
+def combos(case):
+    """per op the (sk, tk) in force AFTER the op; and the set of all combinations in force at some render"""
+    sk = tk = 0
+    per, used = [], {(0, 0)}
+    for op in case["ops"]:
+        k = op["op"]
+        if k == "style":
+            sk = op["sk"]
+        elif k == "trans":
+            tk = op["tk"]
+        elif k == "render" and "key" in op:
+            sk = op["key"]
+        if k == "render":
+            used.add((sk, tk))
+        per.append((sk, tk))
+    return per, sorted(used)
 
 
 def enc_attrs(a: Attrs) -> str:
@@ -132,15 +263,33 @@ def enc_attrs(a: Attrs) -> str:
 
 
 class StubStyle:
-    """stands for Renderer.style: a fixed table, an externally set invalidation hash"""
+    """stands for Renderer.style (like Application._merged_style: one object whose lookups follow the CURRENT
+    style sheet `key`, and whose invalidation hash is `key`)"""
 
-    def __init__(self, table):
-        self.table = {style_str(k): v for k, v in table.items()}
+    def __init__(self, case):
+        self.case = case
         self.key = 0
+        self._tabs = {}
 
     def get_attrs_for_style_str(self, s, default=None):
+        t = self._tabs.get(self.key)
+        if t is None:
+            t = self._tabs[self.key] = {style_str(k): v for k, v in sheet_table(self.case, self.key).items()}
         # style strings that Char() derived itself (" class:control-character ") are plain
-        return self.table.get(s, mk_attrs(PLAIN))
+        return t.get(s, mk_attrs(PLAIN))
+
+    def invalidation_hash(self):
+        return self.key
+
+
+class StubTransformation(StyleTransformation):
+    """stands for app.style_transformation"""
+
+    def __init__(self):
+        self.key = 0
+
+    def transform_attrs(self, attrs):
+        return tr_apply(self.key, attrs)
 
     def invalidation_hash(self):
         return self.key
@@ -204,7 +353,7 @@ class RecOutput(Output):
     def show_cursor(self): self._r("CS", "show_cursor")
     def set_cursor_shape(self, cursor_shape): self._r(f"shape{SHAPES.index(cursor_shape)}", "set_cursor_shape", cursor_shape)
     def reset_cursor_shape(self): self._r("shape-", "reset_cursor_shape")
-    def ask_for_cpr(self): self._r("cpr")
+    def ask_for_cpr(self): self._r("cpr", "ask_for_cpr")
     def bell(self): self._r("bell")
     def enable_bracketed_paste(self): self._r("paste+", "enable_bracketed_paste")
     def disable_bracketed_paste(self): self._r("paste-", "disable_bracketed_paste")
@@ -214,8 +363,10 @@ class RecOutput(Output):
     def get_rows_below_cursor_position(self): raise NotImplementedError
     def get_default_color_depth(self): return ColorDepth.DEPTH_8_BIT
 
+    cpr = False
+
     @property
-    def responds_to_cpr(self): return False
+    def responds_to_cpr(self): return self.cpr
 
 
 def enc_calls(calls):
@@ -568,15 +719,26 @@ def all_chars(case):
 
 
 def header_lines(case):
-    L = [f"cfg {case['W']} {case['H']} {enc_bool(case['fs'])}", f"depth {case['depth']}"]
-    for sid, a in sorted(style_table(case).items()):
-        L.append(f"style {sid} {enc_attrs(a)}".replace("/", " "))
+    L = [f"cfg {case['W']} {case['H']} {enc_bool(case['fs'])} {enc_bool(case.get('cpr', 0))}", f"depth {case['depth']}"]
+    plain = mk_attrs(PLAIN)
+    for (sk, tk) in combos(case)[1]:
+        for sid, a in sorted(style_table(case, sk, tk).items()):
+            if a != plain:
+                L.append(f"style {sk} {tk} {sid} {enc_attrs(a)}".replace("/", " "))
     cs = all_chars(case)
     wide = "".join(sorted(c for c in cs if get_cwidth(c) == 2))
     zero = "".join(sorted(c for c in cs if get_cwidth(c) == 0 and ord(c) >= 32 and ord(c) != 127))
     L.append(f"cw 2 {enc_str(wide)}")
     L.append(f"cw 0 {enc_str(zero)}")
     return L
+
+
+def world_attrs(case):
+    """every Attrs value some (style sheet, transformation) in force at a render gives"""
+    out = set()
+    for (sk, tk) in combos(case)[1]:
+        out.update(style_table(case, sk, tk).values())
+    return out
 
 
 # ------------------------------------------------------------------ the two drivers of the real code
@@ -593,7 +755,7 @@ class StubCursor:
 class StubApp:
     def __init__(self, depth):
         self.layout = StubLayout()
-        self.style_transformation = DummyStyleTransformation()
+        self.style_transformation = StubTransformation()
         self.color_depth = DEPTHS[depth]
         self.exit_style = ""
         self.cursor = StubCursor()
@@ -602,13 +764,17 @@ class StubApp:
 class StubContainer:
     """stands for layout.container: writes a prepared screen"""
 
-    def __init__(self): self.js = None
+    def __init__(self):
+        self.js = None
+        self.pref = None
+        self.height = None
 
     def preferred_height(self, width, max_available_height):
-        class D: preferred = self.js["h"]
+        class D: preferred = self.js["h"] if self.pref is None else self.pref
         return D
 
     def write_to_screen(self, screen, mouse_handlers, write_position, parent_style, erase_bg, z_index):
+        self.height = write_position.height
         build_screen(self.js, screen)
 
 
@@ -626,20 +792,8 @@ def op_depth(case, op):
 
 
 def gridable(case):
-    """the Lean terminal stores abstract Attrs, the interpreter parsed SGR: comparable when the escape codes of
-    the case's attrs are pairwise distinct at the case's depth"""
-    if case.get("nogrid") or not case.get("chain", True):
-        return False
-    tab = style_table(case)
-    out = Vt100_Output(io.StringIO(), lambda: Size(1, 1), term="xterm")
-    cache = out._escape_code_caches[DEPTHS[case["depth"]]]
-    seen = {}
-    for a in set(tab.values()):
-        e = cache[a]
-        if e in seen and seen[e] != a:
-            return False
-        seen[e] = a
-    return True
+    """the terminal comparison is made for chains (the terminal shows the previous screen)"""
+    return not (case.get("nogrid") or not case.get("chain", True))
 
 
 def grid_plan(case):
@@ -648,74 +802,144 @@ def grid_plan(case):
     interpreter switches buffers, the model terminal is the alternate screen only)."""
     on = gridable(case)
     plan = []
+    avail = case["H"] - (0 if case["fs"] else case.get("top", 0))
     for op in case["ops"]:
         k = op["op"]
-        if k in ("size", "reset") or op_depth(case, op) != case["depth"]:
-            on = False          # (a depth flip: the Lean terminal stores depth-independent attrs)
+        if k in ("size", "reset"):
+            on = False
+        if k == "clear":
+            avail = case["H"]
+        if "scr" in op and op["scr"]["h"] > avail:
+            on = False          # the output does not fit below the origin: the terminal scrolls, the origin moves
         if case["fs"] and (k == "clear" or (k == "erase" and op.get("la", 1)) or op.get("done")):
             on = False
         plan.append(on and k in ("render", "diff", "erase", "clear"))
     return plan
 
 
-def sgr_of_attrs(case):
-    """canonical parsed SGR -> Attrs token, for printing the interpreter's grid in the model's vocabulary"""
-    tab = style_table(case)
-    out = Vt100_Output(io.StringIO(), lambda: Size(1, 1), term="xterm")
-    cache = out._escape_code_caches[DEPTHS[case["depth"]]]
-    m = {}
-    for a in set(tab.values()):
-        v = VT(1, 1)
-        v.feed(cache[a])
-        m[v.sgr] = a
-    m.setdefault(VT.PLAIN, mk_attrs(PLAIN))
-    return m
+def sgr_tok(sgr):
+    """the interpreter's SGR state in the vocabulary of the Lean terminals: colours as the text of their SGR
+    parameters ("31", "48;5;208", "38;2;255;136;0"), flags in the order of `Attrs`"""
+    fg, bg, fl = sgr
+
+    def col(c, is_bg):
+        if not c:
+            return ""
+        if c[0] == "c":
+            return str(int(c[1:]) + (10 if is_bg else 0))
+        if c[0] == "p":
+            return f"{48 if is_bg else 38};5;{c[1:]}"
+        if c[0] == "r":
+            return f"{48 if is_bg else 38};2;{int(c[1:3], 16)};{int(c[3:5], 16)};{int(c[5:7], 16)}"
+        return "?" + c
+
+    flags = "".join("1" if n in fl else "0" for n in ("bold", "underline", "strike", "italic", "blink", "reverse",
+                                                       "hidden"))
+    return f"{enc_str(col(fg, False))}/{enc_str(col(bg, True))}/{flags}"
 
 
-def grid_line(vt: VT, sgrmap):
-    def attrs_tok(sgr):
-        if sgr in sgrmap:
-            return enc_attrs(sgrmap[sgr])
-        fg, bg, fl = sgr           # erased with a background colour
-        for k, a in sgrmap.items():
-            if k[1] == bg and bg:
-                return enc_attrs(mk_attrs(PLAIN)._replace(bgcolor=a.bgcolor))
-        return "?" + repr(sgr)
-
+def grid_line(vt: VT):
     def cell_tok(c):
         t = "".join(ch for ch in c[0] if get_cwidth(ch) != 0 or ch == "")
-        return ".".join(str(ord(ch)) for ch in t) + ";" + attrs_tok(c[1])
+        return ".".join(str(ord(ch)) for ch in t) + ";" + sgr_tok(c[1])
 
     rows = ["|".join(cell_tok(c) for c in row) for row in vt.owned()]
-    return (f"{vt.row - vt.top} {vt.col} {enc_bool(vt.visible)} {enc_bool(vt.autowrap)} {attrs_tok(vt.sgr)} "
+    return (f"{vt.row - vt.top} {vt.col} {enc_bool(vt.visible)} {enc_bool(vt.autowrap)} {sgr_tok(vt.sgr)} "
             f"{vt.scrolled} {enc_bool(vt.oob)} " + " ".join(rows))
 
 
 def rs_tok(r: Renderer, rev):
+    def opt(v):
+        return "N" if v is None else str(v)
+    sz = "N" if r._last_size is None else f"{r._last_size.rows}x{r._last_size.columns}"
+    shape = "N" if r._last_cursor_shape is None else str(SHAPES.index(r._last_cursor_shape))
+    depth = "N" if r._last_color_depth is None else str(DEPTH_NUM[r._last_color_depth])
+    cpr = {"UNKNOWN": "U", "SUPPORTED": "S", "NOT_SUPPORTED": "X"}[r.cpr_support.name]
     return (f"{r._cursor_pos.x} {r._cursor_pos.y} {last_tok(rev, r._last_style)} "
             f"{enc_bool(r._last_screen is not None)} {enc_bool(r._in_alternate_screen)}"
             f"{enc_bool(r._mouse_support_enabled)}{enc_bool(r._bracketed_paste_enabled)}"
-            f"{enc_bool(r._cursor_key_mode_reset)}")
+            f"{enc_bool(r._cursor_key_mode_reset)}"
+            f" sk={opt(r._last_style_hash)} tk={opt(r._last_transformation_hash)} d={depth} sz={sz} sh={shape}"
+            f" min={r._min_available_height} cpr={cpr} wait={len(r._waiting_for_cpr_futures)}")
+
+
+def snap_caches(afs, hs):
+    """raw copy of the two dictionaries of a renderer (formatted later, when every style string has its id)"""
+    return (None if afs is None else dict(afs), None if hs is None else dict(hs),
+            None if (afs is None or hs is None) else (hs.style_string_to_attrs is afs))
+
+
+def caches_tok(snap, rev):
+    a, h, al = snap
+
+    def fmt(d, f):
+        if d is None:
+            return "N"
+        items = [(rev.get(k, "?" + k), v) for k, v in d.items()]
+        items = [kv for kv in items if kv[0] != 1]       # the default char's style: see Drivers/C06.lean encCaches
+        items.sort(key=lambda kv: (isinstance(kv[0], str), kv[0]))
+        return ",".join(f"{k}={f(v)}" for k, v in items)
+
+    return f"A[{fmt(a, enc_attrs)}] H[{fmt(h, enc_bool)}] alias={'-' if al is None else enc_bool(al)}"
+
+
+class _TimerApp:
+    """stands for get_app() inside Renderer.request_absolute_cursor_position: keeps the CPR-timeout coroutines
+    so that a `cprtimeout` op can run the real one to completion"""
+
+    def __init__(self):
+        self.pending = []
+
+    def create_background_task(self, coro):
+        self.pending.append(coro)
+
+    def fire(self):
+        if self.pending:
+            coro = self.pending.pop(0)
+            try:
+                coro.send(None)
+            except StopIteration:
+                pass
+
+    def close(self):
+        for c in self.pending:
+            c.close()
+        self.pending = []
+
+
+async def _no_sleep(_t):
+    return None
+
+
+_LOOP = []
+
+
+def _ensure_loop():
+    import asyncio
+    if not _LOOP:
+        _LOOP.append(asyncio.new_event_loop())
+    asyncio.set_event_loop(_LOOP[0])
 
 
 def run_case(case, tee):
-    """run the ops of a case on the real code; yields (op, calls, state token, bytes)"""
+    """run the ops of a case on the real code; yields (op, calls, state token, bytes, extra)"""
+    import prompt_toolkit.renderer as R
     W, H, fs = case["W"], case["H"], bool(case["fs"])
-    table = style_table(case)
-    rev = {style_str(k): k for k in table}
+    rev = {style_str(k): k for k in all_sids(case)}
     out = RecOutput(W, H, tee=tee)
+    out.cpr = bool(case.get("cpr", 0))
     app = StubApp(case["depth"])
     res = []
     if case["kind"] == "diff":
-        style = StubStyle(table)
-        afs = _StyleStringToAttrsCache(style.get_attrs_for_style_str, DummyStyleTransformation())
+        style = StubStyle(case)
+        afs = _StyleStringToAttrsCache(style.get_attrs_for_style_str, StubTransformation())
         hs = _StyleStringHasStyleCache(afs)
         prev = None
         pos, last = Point(0, 0), None
         for op in case["ops"]:
             if op["op"] == "size":
                 out.w, out.h = op["W"], op["H"]
-                res.append((op, None, None, ""))
+                res.append((op, None, None, "", None))
                 continue
             scr = build_screen(op["scr"])
             app.color_depth = DEPTHS[op_depth(case, op)]
@@ -728,37 +952,81 @@ def run_case(case, tee):
             pw = op.get("pw", out.w)
             pos, last = _output_screen_diff(app, out, scr, pos, app.color_depth, prev, last, bool(op["done"]),
                                             fs, afs, hs, out.get_size(), pw)
-            res.append((op, out.take(), f"{pos.x} {pos.y} {last_tok(rev, last)}", out.take_bytes()))
+            res.append((op, out.take(), f"{pos.x} {pos.y} {last_tok(rev, last)}", out.take_bytes(),
+                        {"caches": snap_caches(afs, hs)}))
             prev = scr
-    else:
-        style = StubStyle(table)
-        layout = StubRenderLayout()
-        app.layout = layout
-        flag = {"mouse": False}
+        return res
+    _ensure_loop()
+    style = StubStyle(case)
+    layout = StubRenderLayout()
+    app.layout = layout
+    flag = {"mouse": False}
+    tapp = _TimerApp()
+    orig_get_app, orig_sleep = R.get_app, R.sleep
+    R.get_app = lambda: tapp
+    R.sleep = _no_sleep
+    try:
         r = Renderer(style, out, full_screen=fs, mouse_support=Condition(lambda: flag["mouse"]))
-        res.append(({"op": "init"}, out.take(), rs_tok(r, rev), out.take_bytes()))
+        res.append(({"op": "init"}, out.take(), rs_tok(r, rev), out.take_bytes(), None))
         for op in case["ops"]:
             k = op["op"]
+            extra = {}
             if k == "size":
                 out.w, out.h = op["W"], op["H"]
-                res.append((op, None, None, ""))
+                res.append((op, None, None, "", None))
                 continue
+            if k == "style":
+                style.key = op["sk"]
+                res.append((op, None, None, "", None))
+                continue
+            if k == "trans":
+                app.style_transformation.key = op["tk"]
+                res.append((op, None, None, "", None))
+                continue
+            err = None
             if k == "render":
                 layout.container.js = op["scr"]
+                layout.container.pref = op.get("pref")
                 flag["mouse"] = bool(op.get("mouse", 0))
-                style.key = op.get("key", 0)
+                if "key" in op:
+                    style.key = op["key"]
                 app.cursor.shape = op.get("shape", 0)
                 app.color_depth = DEPTHS[op_depth(case, op)]
                 r.render(app, layout, is_done=bool(op["done"]))
+                extra["height"] = layout.container.height
+                extra["caches"] = snap_caches(r._attrs_for_style, r._style_string_has_style)
             elif k == "erase":
                 r.erase(leave_alternate_screen=bool(op.get("la", 1)))
             elif k == "reset":
                 r.reset(_scroll=bool(op.get("sc", 0)), leave_alternate_screen=bool(op.get("la", 1)))
-            elif k == "clear":
-                r.clear()
+            elif k in ("clear", "reqcpr"):
+                n0 = len(tapp.pending)
+                try:
+                    if k == "clear":
+                        r.clear()
+                    else:
+                        r.request_absolute_cursor_position()
+                except AssertionError:
+                    err = "err:AssertionError"
+                extra["timer"] = len(tapp.pending) - n0
+            elif k == "cprrow":
+                r.report_absolute_cursor_row(op["row"])
+            elif k == "cprtimeout":
+                tapp.fire()
+            elif k == "hknown":
+                extra["value"] = enc_bool(r.height_is_known)
+            elif k == "rowsabove":
+                try:
+                    extra["value"] = str(r.rows_above_layout)
+                except R.HeightIsUnknownError:
+                    extra["value"] = "err:HeightIsUnknownError"
             else:
                 raise ValueError(k)
-            res.append((op, out.take(), rs_tok(r, rev), out.take_bytes()))
+            extra["err"] = err
+            res.append((op, out.take(), rs_tok(r, rev), out.take_bytes(), extra))
+    finally:
+        tapp.close()
+        R.get_app, R.sleep = orig_get_app, orig_sleep
     return res
 
 
@@ -797,6 +1065,15 @@ def layout_to_rend(case):
         msg = FormattedText([tuple(x) for x in msg])
     kw.update(message=msg)
 
+    from prompt_toolkit.styles import Style, SwapLightAndDarkStyleTransformation
+    lsheets = [(None, None),
+               (Style.from_dict({"bottom-toolbar": "noreverse bg:#004400 #ffffff", "completion-menu": "bg:ansiblue",
+                                 "prompt": "bg:ansired"}), None),
+               (Style.from_dict({"bottom-toolbar": "noreverse", "completion-menu": "noreverse nounderline",
+                                 "rprompt": "bg:#303030"}), None),
+               (None, SwapLightAndDarkStyleTransformation()),
+               (Style.from_dict({"bottom-toolbar": "noreverse bg:#004400 #ffffff"}),
+                SwapLightAndDarkStyleTransformation())]
     captured = []
     orig = R._output_screen_diff
 
@@ -816,20 +1093,29 @@ def layout_to_rend(case):
             app.full_screen = fs
             app.renderer = Renderer(app._merged_style, out, full_screen=fs, mouse_support=app.mouse_support)
             cur_depth = {"d": case["depth"]}
+            cur_sheet = {"k": 0, "sent": 0}
             app._color_depth = lambda: DEPTHS[cur_depth["d"]]       # a callable colour depth, flipped between keys
-            if not fs and cfg.get("cpr", 1):
+            cpr_told = bool(not fs and cfg.get("cpr", 1))
+            if cpr_told:
+                # the terminal answered the cursor position request truthfully: the origin is on row top + 1
                 app.renderer.report_absolute_cursor_row(top + 1)
+                ops.append({"op": "cprrow", "row": top + 1})
+
+            prefs = []
 
             def render():
                 async def go():
                     for _ in range(3):
                         await asyncio.sleep(0)
                     app.render_counter += 1
+                    # the preferred height the layout reports for this render (what Renderer.render asks for)
+                    prefs.append(int(app.layout.container.preferred_height(W, H).preferred))
                     app.renderer.render(app, app.layout, is_done=ed.done)
                 ed._loop.run_until_complete(go())
                 scr = captured.pop()
                 del captured[:]
                 cells = []
+                sheet = cur_sheet["k"]
                 for y in sorted(scr.data_buffer):
                     row = scr.data_buffer[y]
                     for x in sorted(row):
@@ -837,33 +1123,50 @@ def layout_to_rend(case):
                         if ch.style not in sids:
                             sids[ch.style] = len(sids)
                         sid = sids[ch.style]
-                        if sid not in attrs:
-                            attrs[sid] = app.renderer._attrs_for_style[ch.style]
+                        if (sheet, sid) not in attrs:
+                            # (a plain lookup: does not touch the renderer's dictionaries)
+                            attrs[(sheet, sid)] = app.style_transformation.transform_attrs(
+                                app.renderer.style.get_attrs_for_style_str(ch.style))
                         cells.append([y, x, ch.char, sid])
+                if sheet != cur_sheet["sent"]:
+                    ops.append({"op": "style", "sk": sheet})
+                    cur_sheet["sent"] = sheet
                 zwe = [[y, x, t] for y, r in scr.zero_width_escapes.items() for x, t in r.items()]
                 cur = scr.get_cursor_position(app.layout.current_window)
                 ops.append({"op": "render", "scr": {"h": scr.height, "cur": [cur.x, cur.y],
                                                      "show": int(bool(scr.show_cursor)), "cells": cells, "zwe": zwe},
-                            "done": int(bool(ed.done)), "raw": 1, "depth": cur_depth["d"]})
+                            "done": int(bool(ed.done)), "raw": 1, "depth": cur_depth["d"], "pref": prefs.pop()})
 
             render()
             flips = case.get("depths") or []
+            sflips = case.get("sflips") or []
             for i, k in enumerate(case["keys"]):
                 if ed.done:
                     break
                 ed.feed(k)
                 if i < len(flips) and flips[i]:
                     cur_depth["d"] = flips[i]
+                if i < len(sflips) and sflips[i] is not None:
+                    # the application switches its colour scheme: another style sheet / style transformation
+                    cur_sheet["k"] = sflips[i]
+                    ed.session.style = lsheets[sflips[i]][0]
+                    ed.session.style_transformation = lsheets[sflips[i]][1]
                 render()
     finally:
         R._output_screen_diff = orig
-    styles = []
-    for sid, a in sorted(attrs.items()):
+    styles, sheets = [], {}
+    for (sheet, sid), a in sorted(attrs.items()):
         fl = "".join("1" if x else "0" for x in (a.bold, a.underline, a.strike, a.italic, a.blink, a.reverse,
                                                   a.hidden))
-        styles.append([sid, a.color or "", a.bgcolor or "", fl])
+        row = [sid, a.color or "", a.bgcolor or "", fl]
+        if sheet == 0:
+            styles.append(row)
+        else:
+            sheets.setdefault(str(sheet), []).append(row)
+    for i in range(1, len(lsheets)):
+        sheets.setdefault(str(i), [])
     rend = {"kind": "rend", "W": W, "H": H, "top": top, "fs": int(fs), "depth": case["depth"], "styles": styles,
-            "chain": True, "ops": ops, "from_layout": True}
+            "sheets": sheets, "chain": True, "ops": ops, "from_layout": True, "cpr": int(cpr_told)}
     _LAYOUT_CACHE[key] = rend
     return rend
 
@@ -880,11 +1183,16 @@ def model_lines(case):
     body = [f"term {top}"]
     plan = grid_plan(case)
     if case["kind"] != "diff":
-        body.append("init")
+        body.append(f"init {enc_bool(case.get('cpr', 0))}")
+        body.append("bytes")
     for op, grid in zip(case["ops"], plan):
         k = op["op"]
         if k == "size":
             body.append(f"size {op['W']} {op['H']}")
+        elif k == "style":
+            body.append(f"setstyle {op['sk']}")
+        elif k == "trans":
+            body.append(f"settrans {op['tk']}")
         elif k == "diff":
             body += screen_lines(op["scr"], extra)
             body.append(f"depth {op_depth(case, op)}")
@@ -899,21 +1207,27 @@ def model_lines(case):
         elif k == "render":
             body += screen_lines(op["scr"], extra)
             body.append(f"depth {op_depth(case, op)}")
-            body.append(f"render {enc_bool(op['done'])} {enc_bool(op.get('mouse', 0))} {op.get('key', 0)} "
-                        f"{op.get('shape', 0)}")
+            if "key" in op:
+                body.append(f"setstyle {op['key']}")
+            body.append(f"render {enc_bool(op['done'])} {enc_bool(op.get('mouse', 0))} {op.get('shape', 0)} "
+                        f"{op.get('pref', op['scr']['h'])}")
         elif k == "erase":
             body.append(f"erase {enc_bool(op.get('la', 1))}")
         elif k == "reset":
             body.append(f"reset {enc_bool(op.get('sc', 0))} {enc_bool(op.get('la', 1))}")
-        elif k == "clear":
-            body.append("clear")
+        elif k in ("clear", "reqcpr", "cprtimeout", "hknown", "rowsabove"):
+            body.append(k)
+        elif k == "cprrow":
+            body.append(f"cprrow {op['row']}")
+        else:
+            raise ValueError(k)
+        if k in ("diff", "render", "erase", "reset", "clear", "reqcpr"):
+            body.append("bytes")
         if grid:
             body.append("grid")
+            body.append("bgrid")
         if op.get("done") and k in ("render", "diff"):
             body.append(f"term {top}")       # the next prompt starts on a fresh terminal
-    # styles that Char() derived itself (control characters): plain in the stub style
-    for st, sid in extra.items():
-        L.append(f"style {sid} {enc_attrs(mk_attrs(PLAIN))}".replace("/", " "))
     return L + body
 
 
@@ -922,40 +1236,62 @@ def impl_lines(case):
     extra: dict[str, int] = {}
     out = ["ok"] * len(header_lines(case))
     plan = grid_plan(case)
-    tee = any(plan)
+    tee = True          # every call also goes to a real Vt100_Output: its bytes are compared with the encoder's
     res = run_case(case, tee=tee)
+    # ids of the style strings that Char() derived itself (control characters): as model_lines allocates them
+    for op in case["ops"]:
+        if "scr" in op:
+            screen_lines(op["scr"], extra)
+    rev = {style_str(k): k for k in all_sids(case)}
+    rev.update(extra)
+    extra = {}
     top = 0 if case["fs"] else case.get("top", 0)
-    vt = VT(case["W"], case["H"] - top, top) if tee else None
-    sgrmap = sgr_of_attrs(case) if tee else None
+    vt = VT(case["W"], case["H"] - top, top) if any(plan) else None
     body = ["ok"]
     if case["kind"] != "diff":
-        op, calls, st, data = res.pop(0)
+        op, calls, st, data, _ = res.pop(0)
         if vt:
             vt.feed(data)
         body.append(f"{enc_calls(calls)} | {st}")
-    for (op, calls, st, data), grid in zip(res, plan):
+        body.append(enc_str(data))
+    for (op, calls, st, data, ex), grid in zip(res, plan):
         k = op["op"]
-        if k == "size":
+        if k in ("size", "style", "trans"):
             body.append("ok")
             continue
         if "scr" in op:
             body += ["ok"] * (len(screen_lines(op["scr"], extra)) + 1)      # + the depth line
         if k == "diff" and op.get("noprev"):
             body.append("ok")
-        body.append(f"{enc_calls(calls)} | {st}")
+        if k == "render" and "key" in op:
+            body.append("ok")
         if k == "diff":
+            body.append(f"{enc_calls(calls)} | {st} | {caches_tok(ex['caches'], rev)}")
             body.append("ok")  # keep
+        elif k == "render":
+            body.append(f"{enc_calls(calls)} | {st} | h={ex['height']} | {caches_tok(ex['caches'], rev)}")
+        elif k in ("clear", "reqcpr"):
+            body.append(ex["err"] or f"{enc_calls(calls)} | {st} | timer={ex['timer']}")
+        elif k in ("cprrow", "cprtimeout"):
+            body.append(st)
+        elif k in ("hknown", "rowsabove"):
+            body.append(ex["value"])
+        else:
+            body.append(f"{enc_calls(calls)} | {st}")
+        if k in ("diff", "render", "erase", "reset", "clear", "reqcpr"):
+            body.append(enc_str(data))
         if vt:
             vt.feed(data)
             if k == "clear":
                 vt.top = 0
         if grid:
-            body.append(grid_line(vt, sgrmap))
+            body.append(grid_line(vt))                  # the abstract terminal executing the calls
+            body.append("g " + grid_line(vt))           # the Lean byte-level interpreter reading the bytes
         if op.get("done") and k in ("render", "diff"):
             if vt:
                 vt = vt.fresh()
             body.append("ok")
-    return out + ["ok"] * len(extra) + body
+    return out + body
 
 
 # ------------------------------------------------------------------ oracle
@@ -963,12 +1299,12 @@ def _viol(site, cond, msg):
     return {"signature": f"{site} | {cond}", "msg": msg}
 
 
-def expected_cells(js, case, W, H, depth):
+def expected_cells(js, case, W, H, depth, sk=0, tk=0):
     """what the owned rows must show for screen `js`: {(y, x): (text, sgr)} for the cells laid out from the
     left, a wide / multi-character cell covering the following columns; everything else blank"""
     out = Vt100_Output(io.StringIO(), lambda: Size(1, 1), term="xterm")
     cache = out._escape_code_caches[DEPTHS[depth]]
-    tab = style_table(case)
+    tab = style_table(case, sk, tk)
     plain = mk_attrs(PLAIN)
 
     by_name = {style_str(k): v for k, v in tab.items()}
@@ -1023,16 +1359,21 @@ def compare_grid(vt: VT, exp, W, H, shift=0):
     return None
 
 
+class _TtyIO(io.StringIO):
+    def isatty(self):
+        return True
+
+
 class _Real:
     """runs the ops of a chain case on the real code with a real Vt100_Output; yields per op the bytes"""
 
     def __init__(self, case):
         self.case = case
         self.W, self.H, self.fs = case["W"], case["H"], bool(case["fs"])
-        self.buf = io.StringIO()
+        cpr = bool(case.get("cpr", 0))
+        self.buf = _TtyIO() if cpr else io.StringIO()
         self.out = Vt100_Output(self.buf, lambda: Size(rows=self.H, columns=self.W), term="xterm",
-                                enable_cpr=False)
-        self.table = style_table(case)
+                                enable_cpr=cpr)
         self.app = StubApp(case["depth"])
 
     def take(self):
@@ -1043,10 +1384,12 @@ class _Real:
         return s
 
     def steps(self):
+        """yields (op, bytes, height of the previous screen, (sk, tk) in force)"""
+        import prompt_toolkit.renderer as R
         case = self.case
-        style = StubStyle(self.table)
+        style = StubStyle(case)
         if case["kind"] == "diff":
-            afs = _StyleStringToAttrsCache(style.get_attrs_for_style_str, DummyStyleTransformation())
+            afs = _StyleStringToAttrsCache(style.get_attrs_for_style_str, StubTransformation())
             hs = _StyleStringHasStyleCache(afs)
             prev, pos, last = None, Point(0, 0), None
             for op in case["ops"]:
@@ -1060,21 +1403,35 @@ class _Real:
                 pos, last = _output_screen_diff(self.app, self.out, scr, pos, self.app.color_depth, prev, last,
                                                 bool(op["done"]), self.fs, afs, hs, self.out.get_size(), self.W)
                 self.out.flush()
-                yield dict(op, op="render"), self.take(), last_h
+                yield dict(op, op="render"), self.take(), last_h, (0, 0)
                 prev = scr
-        else:
-            layout = StubRenderLayout()
-            self.app.layout = layout
-            flag = {"mouse": False}
+            return
+        _ensure_loop()
+        layout = StubRenderLayout()
+        self.app.layout = layout
+        flag = {"mouse": False}
+        tapp = _TimerApp()
+        orig_get_app, orig_sleep = R.get_app, R.sleep
+        R.get_app = lambda: tapp
+        R.sleep = _no_sleep
+        try:
             r = Renderer(style, self.out, full_screen=self.fs, mouse_support=Condition(lambda: flag["mouse"]))
-            yield {"op": "init"}, self.take(), 0
+            yield {"op": "init"}, self.take(), 0, (0, 0)
             for op in case["ops"]:
                 k = op["op"]
                 last_h = r._last_screen.height if r._last_screen is not None else 0
+                if k == "style":
+                    style.key = op["sk"]
+                    continue
+                if k == "trans":
+                    self.app.style_transformation.key = op["tk"]
+                    continue
                 if k == "render":
                     layout.container.js = op["scr"]
+                    layout.container.pref = op.get("pref")
                     flag["mouse"] = bool(op.get("mouse", 0))
-                    style.key = op.get("key", 0)
+                    if "key" in op:
+                        style.key = op["key"]
                     self.app.cursor.shape = op.get("shape", 0)
                     self.app.color_depth = DEPTHS[op_depth(case, op)]
                     r.render(self.app, layout, is_done=bool(op["done"]))
@@ -1082,18 +1439,36 @@ class _Real:
                     r.erase(leave_alternate_screen=bool(op.get("la", 1)))
                 elif k == "clear":
                     r.clear()
+                elif k == "reqcpr":
+                    try:
+                        r.request_absolute_cursor_position()
+                    except AssertionError:
+                        pass
+                elif k == "cprrow":
+                    r.report_absolute_cursor_row(op["row"])
+                elif k == "cprtimeout":
+                    tapp.fire()
+                elif k in ("hknown", "rowsabove"):
+                    continue
                 else:
                     return      # size change / bare reset: the chain property is not defined beyond
-                yield op, self.take(), last_h
+                yield op, self.take(), last_h, (style.key, self.app.style_transformation.key)
+        finally:
+            tapp.close()
+            R.get_app, R.sleep = orig_get_app, orig_sleep
 
 
-def scratch_vt(case, js, done, top, depth):
-    """clear + draw `js` from scratch with the real differ on a fresh terminal"""
+def scratch_vt(case, js, done, top, depth, sk=0, tk=0):
+    """clear + draw `js` from scratch with the real differ (fresh dictionaries) on a fresh terminal, under style
+    sheet `sk` and style transformation `tk`"""
     W, H, fs = case["W"], case["H"], bool(case["fs"])
     buf = io.StringIO()
     out = Vt100_Output(buf, lambda: Size(rows=H, columns=W), term="xterm", enable_cpr=False)
-    style = StubStyle(style_table(case))
-    afs = _StyleStringToAttrsCache(style.get_attrs_for_style_str, DummyStyleTransformation())
+    style = StubStyle(case)
+    style.key = sk
+    tr = StubTransformation()
+    tr.key = tk
+    afs = _StyleStringToAttrsCache(style.get_attrs_for_style_str, tr)
     hs = _StyleStringHasStyleCache(afs)
     app = StubApp(depth)
     _output_screen_diff(app, out, build_screen(js), Point(0, 0), app.color_depth, None, None, done, fs, afs, hs,
@@ -1122,10 +1497,25 @@ def oracle(case):
             v.append(_viol(site, cond, msg))
 
     real = _Real(case)
-    for i, (op, data, last_h) in enumerate(real.steps()):
+    known = False       # the terminal truthfully reported the row of the origin (and no reset since)
+    for i, (op, data, last_h, (sk, tk)) in enumerate(real.steps()):
         k = op["op"]
         scrolled0 = vt.scrolled
         vt.writes = []
+        if k == "cprrow":
+            known = (op["row"] == vt.top + 1)
+        elif k in ("erase", "clear") or op.get("done"):
+            known = False
+        if "scr" in op and case.get("from_layout") and not fs and not op.get("done") and op.get("pref") is not None \
+                and known:
+            # the renderer knows how many rows lie between the origin and the bottom of the terminal: a layout
+            # whose preferred height fits there must not be given (and draw) more rows than that
+            avail = vt.H - vt.top
+            if op["pref"] <= avail and last_h <= avail and op["scr"]["h"] > avail:
+                v.append(_viol("Renderer.render", "screen taller than the rows below the origin although the cursor "
+                               "row was reported", f"op#{i}: height={op['scr']['h']} available={avail} "
+                               f"preferred={op['pref']} previous height={last_h}"))
+                return v
         if "scr" in op:
             # preconditions of the property (a layout never violates them; a shrunk replay might)
             js = op["scr"]
@@ -1161,7 +1551,9 @@ def oracle(case):
         if any(c != vt.sentinel for y in range(max(0, vt.top - min(legit_shift, vt.scrolled - scrolled0)))
                for c in vt.grid[y]):
             bad("rows above the origin changed", where)
-        if k == "init":
+        if k in ("init", "reqcpr", "cprrow", "cprtimeout"):
+            if vt.scrolled != scrolled0 or vt.writes:
+                bad("scrolled", f"{where}: {k} wrote to the terminal")
             continue
         if k in ("erase", "clear"):
             g = vt.owned()
@@ -1188,12 +1580,12 @@ def oracle(case):
         if outside and not shift:
             bad("wrote outside the owned rows", f"{where}: cells {outside[:4]} bound rows<{bound}")
         depth = op_depth(case, op)       # colours are compared as emitted at the depth of THIS render
-        exp = expected_cells(js, case, W, H, depth)
+        exp = expected_cells(js, case, W, H, depth, sk, tk)
         d = compare_grid(vt, exp, W, H, shift)
         if d:
             bad("terminal does not show the screen",
                 f"{where}: cell (y={d[0]},x={d[1]}) want {d[2]} got {d[3]}; screen={js}")
-        sv = scratch_vt(case, js, done, vt.top, depth)
+        sv = scratch_vt(case, js, done, vt.top, depth, sk, tk)
         # compare with the from-scratch draw (same origin-relative coordinates)
         ga, gb = vt.owned(), sv.owned()
         diffc = None
@@ -1235,6 +1627,14 @@ def oracle(case):
 STYLES = [[2, "", "ansired", "0000000"], [3, "ansiblue", "", "1000000"], [4, "ansiblue", "", "1000000"],
           [5, "", "", "1000000"], [6, "", "", "0100000"], [7, "ff8800", "004400", "0000010"],
           [8, "ff8800", "", "0000000"], [9, "", "", "0001001"]]
+# other style sheets for the same style strings: under sheet 1 the bg-red blank (2) becomes bold-only (nothing
+# visible on a blank), the bold-only one (5) gets a red background, underline (6) becomes plain, the
+# italic+hidden one (9) gets underlined, …; under sheet 2 every style string is plain; sheet 3 = sheet 0 with
+# another invalidation hash
+SHEETS = {"1": [[2, "", "", "1000000"], [3, "", "ansigreen", "0000000"], [4, "ansiblue", "", "1000000"],
+                [5, "", "ansired", "0000000"], [6, "", "", "0000000"], [7, "", "", "0000010"],
+                [8, "", "004400", "0000000"], [9, "", "", "0100000"]],
+          "2": []}
 GLYPHS = ["a", "b", "x", "y", "_"]
 
 
@@ -1313,6 +1713,9 @@ def rand_chain(rng, tier):
     top = max(0, min(top, H - 1))
     case = {"kind": kind, "W": W, "H": H, "top": top, "fs": fs, "depth": depth, "styles": STYLES, "chain": True,
             "ops": []}
+    if kind == "rend":
+        case["sheets"] = SHEETS
+        case["cpr"] = int(rng.random() < 0.3)
     avail = H - top
     n = rng.randrange(1, 9)
     prev = None
@@ -1338,8 +1741,15 @@ def rand_chain(rng, tier):
                 op["pos"] = [0, 0]
             case["ops"].append(op)
         else:
+            # the application switches its style sheet / style transformation between two renders
+            if rng.random() < 0.2:
+                case["ops"].append({"op": "style", "sk": rng.choice([0, 1, 1, 2, 3])})
+            if rng.random() < 0.12:
+                case["ops"].append({"op": "trans", "tk": rng.choice([0, 1, 2, 3])})
+            if case["cpr"] and rng.random() < 0.1:
+                case["ops"].append({"op": "cprrow", "row": top + 1})
             op = {"op": "render", "scr": js, "done": done, "mouse": int(rng.random() < 0.1),
-                  "key": int(rng.random() < 0.1), "shape": rng.choice([0, 0, 0, 1, 2]), "depth": cur_depth}
+                  "shape": rng.choice([0, 0, 0, 1, 2]), "depth": cur_depth}
             case["ops"].append(op)
             r = rng.random()
             if not done and r < 0.06:
@@ -1381,24 +1791,41 @@ def rand_free(rng):
 
 
 def rand_resize(rng):
-    """Renderer-level sequences with size changes, style-key changes, bare resets: call correspondence only"""
+    """Renderer-level sequences with size changes, style / transformation changes, bare resets, cursor position
+    requests / reports / timeouts, layouts whose preferred height differs from the screen they draw: call and
+    state correspondence only"""
     W, H = rng.choice([2, 3, 5]), rng.choice([1, 2, 3])
     case = {"kind": "rend", "W": W, "H": H, "fs": rng.randrange(2), "depth": rng.choice([1, 4, 8, 24]),
-            "styles": STYLES, "chain": False, "nogrid": 1, "ops": []}
-    for _ in range(rng.randrange(2, 8)):
+            "styles": STYLES, "sheets": SHEETS, "cpr": int(rng.random() < 0.6), "chain": False, "nogrid": 1,
+            "ops": []}
+    for _ in range(rng.randrange(2, 9)):
         r = rng.random()
-        if r < 0.15:
+        if r < 0.12:
             W, H = rng.choice([2, 3, 5]), rng.choice([1, 2, 3])
             case["ops"].append({"op": "size", "W": W, "H": H})
-        elif r < 0.25:
+        elif r < 0.20:
             case["ops"].append({"op": "reset", "sc": rng.randrange(2), "la": rng.randrange(2)})
-        elif r < 0.32:
+        elif r < 0.26:
             case["ops"].append({"op": "erase", "la": rng.randrange(2)})
-        elif r < 0.36:
+        elif r < 0.31:
             case["ops"].append({"op": "clear"})
+        elif r < 0.37:
+            case["ops"].append({"op": "reqcpr"})
+        elif r < 0.44:
+            case["ops"].append({"op": "cprrow", "row": rng.choice([1, 1, 2, H, H + 1, H + 3, 0])})
+        elif r < 0.47:
+            case["ops"].append({"op": "cprtimeout"})
+        elif r < 0.51:
+            case["ops"].append({"op": rng.choice(["hknown", "rowsabove"])})
+        elif r < 0.58:
+            case["ops"].append({"op": "style", "sk": rng.randrange(4)})
+        elif r < 0.63:
+            case["ops"].append({"op": "trans", "tk": rng.randrange(4)})
         else:
-            case["ops"].append({"op": "render", "scr": rand_screen(rng, W, H, wild=True), "done": int(rng.random() < 0.15),
-                                "mouse": rng.randrange(2), "key": rng.randrange(3), "shape": rng.randrange(4),
+            scr = rand_screen(rng, W, H, wild=True)
+            case["ops"].append({"op": "render", "scr": scr, "done": int(rng.random() < 0.15),
+                                "mouse": rng.randrange(2), "shape": rng.randrange(4),
+                                "pref": rng.choice([scr["h"], scr["h"], 0, 1, H, H + 2]),
                                 "depth": rng.choice([case["depth"], case["depth"], 1, 24])})
     return case
 
@@ -1416,8 +1843,10 @@ def rand_layout(rng):
     if rng.random() < 0.6:
         keys.append("\x1b\r" if cfg["multiline"] and rng.random() < 0.8 else "\r")
     depths = [rng.choice([1, 4, 8, 24]) if rng.random() < 0.2 else 0 for _ in keys]
-    return {"kind": "layout", "W": W, "H": H, "top": 0, "fs": fs, "depth": rng.choice([1, 4, 8, 24]), "cfg": cfg,
-            "keys": keys, "depths": depths, "chain": True}
+    sflips = [rng.randrange(5) if rng.random() < 0.25 else None for _ in keys]
+    top = 0 if fs else rng.choice([0, 0, 0, 1, 2, H - 3])
+    return {"kind": "layout", "W": W, "H": H, "top": top, "fs": fs, "depth": rng.choice([1, 4, 8, 24]), "cfg": cfg,
+            "keys": keys, "depths": depths, "sflips": sflips, "chain": True}
 
 
 SMALL_KINDS = [None, ("a", 0), (" ", 2)]
@@ -1463,16 +1892,129 @@ def small_cases(sizes, n, sample=None, modes=(0, 1)):
                        "styles": [[2, "", "ansired", "0000000"]], "chain": True, "ops": ops}
 
 
+STY_KINDS = [None, ("a", 0), (" ", 2), (" ", 3)]
+# style string 2: plain under sheet 0, red background under sheet 1; style string 3: bold only (transformation 1
+# underlines bold text, so an empty cell of style 3 becomes visible)
+STY_STYLES = [[2, "", "", "0000000"], [3, "", "", "1000000"]]
+STY_SHEETS = {"1": [[2, "", "ansired", "0000000"], [3, "", "", "1000000"]]}
+STY_TRANSITIONS = [((0, 0), (1, 0), 0), ((1, 0), (0, 0), 0), ((0, 0), (0, 1), 0), ((0, 1), (0, 0), 0),
+                   ((0, 0), (0, 0), 0), ((1, 1), (0, 0), 0), ((0, 0), (1, 1), 0), ((0, 0), (0, 0), 24),
+                   ((1, 0), (1, 1), 1)]
+
+
+def style_screens(W, H):
+    out = []
+    for h in range(H + 1):
+        for tup in itertools.product(range(len(STY_KINDS)), repeat=W * h):
+            cells = [[i // W, i % W, STY_KINDS[k][0], STY_KINDS[k][1]] for i, k in enumerate(tup)
+                     if STY_KINDS[k] is not None]
+            out.append({"h": h, "cells": cells, "zwe": []})
+    return out
+
+
+def style_cases(sizes, modes=(0,), sample=None):
+    """one Renderer, two (every third chain: three) renders; between the first two the application changes its
+    style sheet and / or style transformation (and / or colour depth): the SAME style string means "nothing
+    visible on an empty cell" before and "background / underline" after, or the other way round — trailing
+    blanks and entirely blank rows of such styles"""
+    for (W, H) in sizes:
+        scr = style_screens(W, H)
+        if sample:
+            rng, cnt = sample
+            pairs = [(rng.randrange(len(scr)), rng.randrange(len(scr))) for _ in range(cnt)]
+        else:
+            pairs = itertools.product(range(len(scr)), repeat=2)
+        idx = 0
+        for (i, j) in pairs:
+            for fs in modes:
+                for (a, b, depth2) in STY_TRANSITIONS:
+                    ops = []
+                    if a[0]:
+                        ops.append({"op": "style", "sk": a[0]})
+                    if a[1]:
+                        ops.append({"op": "trans", "tk": a[1]})
+                    hh = max(1, scr[i]["h"])
+                    ops.append({"op": "render", "scr": dict(scr[i], cur=[0, 0], show=1), "done": 0})
+                    if b[0] != a[0]:
+                        ops.append({"op": "style", "sk": b[0]})
+                    if b[1] != a[1]:
+                        ops.append({"op": "trans", "tk": b[1]})
+                    hh = max(1, scr[j]["h"])
+                    r2 = {"op": "render", "scr": dict(scr[j], cur=[W - 1, hh - 1], show=idx % 2), "done": 0}
+                    if depth2:
+                        r2["depth"] = depth2
+                    ops.append(r2)
+                    if idx % 3 == 0:
+                        ops.append(dict(r2, scr=dict(scr[i], cur=[0, 0], show=1), done=int(idx % 6 == 0)))
+                    idx += 1
+                    yield {"kind": "rend", "W": W, "H": H, "fs": fs, "depth": 8, "styles": STY_STYLES,
+                           "sheets": STY_SHEETS, "chain": True, "ops": ops}
+
+
+BLOCK_TOKENS = [("gap", 1), ("a", 1), ("ctrl", 2), ("comb", 1)]
+
+
+def block_rows(W):
+    """all rows of exactly W columns over {gap, 'a', a control character (displayed ^A: one cell of width 2
+    followed by the empty cell), 'e' + combining accent (one cell, two characters)}"""
+    out = []
+
+    def rec(x, cells):
+        if x == W:
+            out.append(cells)
+            return
+        for name, wd in BLOCK_TOKENS:
+            if x + wd > W:
+                continue
+            if name == "gap":
+                rec(x + 1, cells)
+            elif name == "a":
+                rec(x + 1, cells + [[0, x, "a", 0]])
+            elif name == "ctrl":
+                rec(x + 2, cells + [[0, x, "\x01", 2], [0, x + 1, "", 2]])
+            elif name == "comb":
+                rec(x + 1, cells + [[0, x, "e\u0301", 0]])
+            else:
+                rec(x + 1, cells + [[0, x, " ", 2]])
+
+    rec(0, [])
+    return out
+
+
+def block_cases(W, modes=(0,)):
+    """every ordered pair of such rows rendered one after the other (every third chain: and back again)"""
+    rows = block_rows(W)
+    idx = 0
+    for a in rows:
+        for b in rows:
+            for fs in modes:
+                ops = [{"op": "render", "scr": {"h": 1, "cells": a, "zwe": [], "cur": [0, 0], "show": 1}, "done": 0},
+                       {"op": "render", "scr": {"h": 1, "cells": b, "zwe": [], "cur": [W - 1, 0], "show": idx % 2},
+                        "done": 0}]
+                if idx % 3 == 0:
+                    ops.append(dict(ops[0], done=int(idx % 6 == 0)))
+                idx += 1
+                yield {"kind": "rend", "W": W, "H": 2, "fs": fs, "depth": 8,
+                       "styles": [[2, "", "ansired", "0000000"]], "chain": True, "ops": ops}
+
+
 def cases(tier, rng):
     if tier == "quick":
         yield from small_cases([(1, 1), (2, 1), (3, 1), (1, 2)], 2)
         yield from small_cases([(2, 2)], 2, modes=(0,))
-        nrand, nfree, nres, nlay = 2500, 1200, 500, 120
+        yield from style_cases([(2, 1)])
+        yield from style_cases([(1, 2)], sample=(rng, 150))
+        yield from block_cases(3)
+        nrand, nfree, nres, nlay = 2500, 1200, 700, 120
     else:
         yield from small_cases([(1, 1), (2, 1), (3, 1), (1, 2), (2, 2)], 2)
         yield from small_cases([(1, 1), (2, 1), (3, 1), (1, 2)], 3)
         yield from small_cases([(3, 2)], 2, sample=(rng, 12000))
-        nrand, nfree, nres, nlay = 50000, 15000, 6000, 1200
+        yield from style_cases([(2, 1), (1, 2)], modes=(0, 1))
+        yield from style_cases([(3, 1), (2, 2)], sample=(rng, 1500))
+        yield from block_cases(3, modes=(0, 1))
+        yield from block_cases(4)
+        nrand, nfree, nres, nlay = 40000, 12000, 7000, 1200
     for _ in range(nrand):
         yield rand_chain(rng, tier)
     for _ in range(nfree):
